@@ -45,9 +45,9 @@ def topologies():
 
 
 N_TOPO = 168
-PER_TOPO = {"quick": 2, "thorough": 60}
-N_D4 = {"quick": 100, "thorough": 4000}
-N_SIMPLE = {"quick": 300, "thorough": 8000}
+PER_TOPO = {"quick": 2, "thorough": 150}
+N_D4 = {"quick": 100, "thorough": 12000}
+N_SIMPLE = {"quick": 300, "thorough": 24000}
 BUDGET = {t: N_TOPO * PER_TOPO[t] + N_D4[t] + N_SIMPLE[t] for t in PER_TOPO}
 MIN_EVALS = {"quick": 600, "thorough": 15000}
 
